@@ -2,7 +2,7 @@
 //@ props C05 C01
 //@ kind P
 //@ def quick NMAX=8
-//@ def thorough NMAX=32
+//@ def thorough NMAX=16
 //@ enforce XMLUTF16Transcoder_transcodeTo
 //@ entry h_utf16_to
 //@ note P: iterations unbounded through loop contracts; buffer LENGTHS are bounded by -DNMAX (srcCount <= NMAX, maxBytes <= 2*NMAX+1) because cbmc needs finite objects
